@@ -51,6 +51,8 @@ def run_symbolic(h, case, float_mode=None, check_ms=None, max_paths=None, stop_o
     subst = {}
     for k, v in (h.subst or {}).items():
         subst[k] = v
+    for k, v in (h.stubs or {}).items():
+        subst[k] = v
     it = Interp(ex, subst=subst)
     errors = []
 
@@ -95,16 +97,51 @@ def _short(x):
     return r if len(r) < 80 else r[:77] + "..."
 
 
+class native_stubs:
+    """Context manager: patch the harness's environment-boundary stubs into the real modules
+    for a native run (the same contract the symbolic run used at those call sites)."""
+
+    def __init__(self, h):
+        self.h = h
+        self.saved = []
+
+    def __enter__(self):
+        import importlib
+        import logging
+        logging.disable(logging.CRITICAL)
+        for real, spec in (self.h.stubs or {}).items():
+            mod = importlib.import_module(real.__module__)
+            parts = real.__qualname__.split(".")
+            owner = mod
+            for p in parts[:-1]:
+                owner = getattr(owner, p)
+            self.saved.append((owner, parts[-1], owner.__dict__[parts[-1]]))
+            setattr(owner, parts[-1], spec)
+        return self
+
+    def __exit__(self, *a):
+        import logging
+        for owner, name, old in reversed(self.saved):
+            setattr(owner, name, old)
+        logging.disable(logging.NOTSET)
+        return False
+
+
+def run_native(h, case):
+    with native_stubs(h):
+        r = h.fn(*case)
+        if hasattr(r, "send"):
+            import asyncio
+            asyncio.run(r)
+
+
 def replay_native(h, case, inputs):
     """Run the harness under CPython with concrete inputs. -> (failures, skipped, error)"""
     api.STATE.inputs = dict(inputs)
     api.STATE.failures = []
     api.STATE.covers = set()
     try:
-        r = h.fn(*case)
-        if hasattr(r, "send"):
-            import asyncio
-            asyncio.run(r)
+        run_native(h, case)
     except api.AssumeFailed:
         return [], True, None
     except Exception as e:  # noqa: BLE001
